@@ -41,16 +41,32 @@ Lemma is_prefix_firstn n (l : list N) : is_prefix (firstn n l) l = true.
 Proof. apply is_prefix_spec. exists (skipn n l). symmetry; apply firstn_skipn. Qed.
 
 (* ---------- the invariant ------------------------------------------------- *)
+Lemma prefix_step (dat R suf : list N) p n :
+  skipn p dat = R ++ suf -> n <= List.length R ->
+  firstn n R = firstn n (skipn p dat) /\ skipn (p + n) dat = skipn n R ++ suf /\
+  p + List.length R + List.length suf = Nat.max p (List.length dat).
+Proof.
+  intros H Hn. split; [|split].
+  - rewrite H, firstn_app. replace (n - List.length R) with 0 by lia. simpl. rewrite app_nil_r. reflexivity.
+  - rewrite <- skipn_skipn'. rewrite H, skipn_app. replace (n - List.length R) with 0 by lia. reflexivity.
+  - apply (f_equal (@List.length N)) in H. rewrite skipn_length, app_length in H. lia.
+Qed.
+
 Section WithServer.
 Variable srv : server.
 Let dat := data srv.
+(* [x] = true: every response of the session is framed, a body ends only where
+   the server's bytes end; false: a body may also end early (close-delimited
+   response closed cleanly) *)
+Variable x : bool.
 
-(* body [b] is positioned at offset [p] of the server's bytes *)
+(* body [b] is positioned at offset [p] of the server's bytes: what it still
+   holds is what the server holds from [p] on, up to the early end [suf] *)
 Definition positioned (b : body) (p : nat) : Prop :=
-  dead b = false -> rest b = skipn p dat.
+  dead b = false -> exists suf, skipn p dat = rest b ++ suf /\ (x = true -> suf = []).
 
 Definition Inv (s : st) : Prop :=
-  progress s <= List.length dat /\ positioned (bdy s) (progress s).
+  progress s <= List.length dat /\ positioned (bdy s) (progress s) /\ (x = true -> framed (conns s)).
 
 Lemma body_read_spec b p lenp evs out e b' evs' :
   positioned b p -> p <= List.length dat ->
@@ -58,48 +74,47 @@ Lemma body_read_spec b p lenp evs out e b' evs' :
   out = firstn (List.length out) (skipn p dat) /\
   p + List.length out <= List.length dat /\
   positioned b' (p + List.length out) /\
-  (e = EEOF -> p + List.length out = List.length dat) /\
+  (e = EEOF -> x = true -> p + List.length out = List.length dat) /\
   (e = ENone -> lenp <> 0 -> out <> []).
 Proof.
   intros Hpos Hp. unfold body_read.
   destruct (dead b) eqn:Hd.
   { intros H; inversion H; subst. simpl. rewrite Nat.add_0_r.
     repeat split; auto; try discriminate. }
-  specialize (Hpos Hd).
+  destruct (Hpos Hd) as (suf & Hsk & Hsuf).
   destruct lenp as [|lenp'].
   { intros H; inversion H; subst. simpl. rewrite Nat.add_0_r.
-    repeat split; auto; try discriminate; try congruence;
-    try (intros _; exact Hpos). }
+    repeat split; auto; try discriminate; try congruence. }
   destruct (next_rd (S lenp') evs) as [ev evs1] eqn:Hev.
   set (want := if rfail ev then rk ev else Nat.max 1 (rk ev)).
   set (n := Nat.min want (Nat.min (S lenp') (List.length (rest b)))).
   assert (Hn : n <= List.length (rest b)) by (unfold n; lia).
   assert (Hlen : List.length (firstn n (rest b)) = n) by (apply firstn_length_le; exact Hn).
-  assert (Hrl : List.length (rest b) = List.length dat - p) by (rewrite Hpos; apply skipn_length).
-  assert (Hskip : skipn n (rest b) = skipn (p + n) dat) by (rewrite Hpos; apply skipn_skipn').
-  assert (Hfirst : firstn n (rest b) = firstn n (skipn p dat)) by (rewrite Hpos; reflexivity).
+  destruct (prefix_step dat (rest b) suf p n Hsk Hn) as (Hfirst & Hskip & Hrl).
+  assert (Hpos' : forall d, positioned {| rest := skipn n (rest b); dead := d |} (p + n)).
+  { intros d _. exists suf. split; [exact Hskip | exact Hsuf]. }
   destruct (rfail ev) eqn:Hf.
   { intros H; inversion H; subst; clear H. rewrite Hlen.
-    split; [exact Hfirst|]. split; [lia|]. split; [intro Hx; simpl in Hx; discriminate|].
+    split; [exact Hfirst|]. split; [lia|]. split; [apply Hpos'|].
     split; discriminate. }
   destruct (rest b) as [|r0 rs] eqn:Hr.
   { intros H; inversion H; subst; clear H. simpl. rewrite Nat.add_0_r.
     split; [reflexivity|]. split; [exact Hp|].
-    split; [intros _; rewrite Hr; exact Hpos|].
+    split; [intros _; exists suf; rewrite Hr; split; [exact Hsk | exact Hsuf]|].
     split; [|discriminate].
-    intros _. symmetry in Hpos. apply skipn_nil_length in Hpos. lia. }
+    intros _ Hx. rewrite (Hsuf Hx) in Hrl. simpl in Hrl. lia. }
   assert (Hn1 : 1 <= n) by (unfold n, want; cbn [List.length]; lia).
   assert (Hne : firstn n (r0 :: rs) <> []).
   { intro Hx. rewrite Hx in Hlen. simpl in Hlen. lia. }
   destruct (skipn n (r0 :: rs)) as [|q0 qs] eqn:Hq.
   - intros H; inversion H; subst; clear H. rewrite Hlen.
     split; [exact Hfirst|]. split; [lia|].
-    split; [intros _; simpl; exact Hskip|].
+    split; [intros _; exists suf; split; [exact Hskip | exact Hsuf]|].
     split; [|intros _ _; exact Hne].
-    intros _. symmetry in Hskip. apply skipn_nil_length in Hskip. lia.
+    intros _ Hx. rewrite (Hsuf Hx) in Hskip. simpl in Hskip. apply skipn_nil_length in Hskip. lia.
   - intros H; inversion H; subst; clear H. rewrite Hlen.
     split; [exact Hfirst|]. split; [lia|].
-    split; [intros _; simpl; exact Hskip|].
+    split; [intros _; exists suf; split; [exact Hskip | exact Hsuf]|].
     split; [discriminate | intros _ _; exact Hne].
 Qed.
 
@@ -149,70 +164,68 @@ Proof.
 Qed.
 
 (* ---------- reset ---------------------------------------------------------- *)
+Lemma framed_tail c cns : framed (c :: cns) -> framed_ev c = true /\ framed cns.
+Proof. unfold framed. simpl. intros H. apply andb_true_iff in H. exact H. Qed.
+
 (* no duplicate, no skip: after every successful reset the body is positioned
    exactly at [progress], on the 206 branch and on the 200 branch alike *)
-Lemma reset_spec s : progress s <= List.length dat ->
+Lemma reset_spec s : progress s <= List.length dat -> (x = true -> framed (conns s)) ->
   exists s' ok, reset srv s = Ok (s', ok) /\ progress s' = progress s /\ Inv s' /\
     (ok = false -> dead (bdy s') = true).
 Proof.
-  intros Hp. unfold reset.
-  destruct (next_conn (conns s)) as [c conns'].
+  intros Hp Hfr. unfold reset.
+  destruct (next_conn (conns s)) as [c conns'] eqn:Hnc.
+  assert (Hc : (x = true -> framed_ev c = true) /\ (x = true -> framed conns')).
+  { unfold next_conn in Hnc. destruct (conns s) as [|c0 t] eqn:Hcs; inversion Hnc; subst.
+    - split; reflexivity.
+    - split; intros Hx; apply (framed_tail _ _ (Hfr Hx)). }
+  destruct Hc as [Hcf Hfr'].
   set (closed := {| rest := rest (bdy s); dead := true |}).
   assert (Hclosed : forall p, positioned closed p) by (intros p H; discriminate).
-  assert (Hfail : forall s1, progress s1 = progress s -> bdy s1 = closed ->
-            exists s' ok, Ok (s1, false) = Ok (s', ok) /\ progress s' = progress s /\ Inv s' /\
+  assert (Hfail : forall s1 okb, progress s1 = progress s -> bdy s1 = closed -> conns s1 = conns' ->
+            exists s' ok, Ok (s1, okb) = Ok (s', ok) /\ progress s' = progress s /\ Inv s' /\
               (ok = false -> dead (bdy s') = true)).
-  { intros s1 H1 H2. exists s1, false. split; [reflexivity|]. split; [exact H1|].
-    split; [split; [rewrite H1; exact Hp | rewrite H2; apply Hclosed] | intros _; rewrite H2; reflexivity]. }
-  assert (Hgood : forall s1, progress s1 = progress s -> positioned (bdy s1) (progress s) ->
+  { intros s1 okb H1 H2 H3. exists s1, okb. split; [reflexivity|]. split; [exact H1|].
+    split; [split; [rewrite H1; exact Hp | split; [rewrite H2; apply Hclosed | rewrite H3; exact Hfr']]
+           | intros _; rewrite H2; reflexivity]. }
+  assert (Hgood : forall s1, progress s1 = progress s -> positioned (bdy s1) (progress s) -> conns s1 = conns' ->
             exists s' ok, Ok (s1, true) = Ok (s', ok) /\ progress s' = progress s /\ Inv s' /\
               (ok = false -> dead (bdy s') = true)).
-  { intros s1 H1 H2. exists s1, true. split; [reflexivity|]. split; [exact H1|].
-    split; [split; [rewrite H1; exact Hp | rewrite H1; exact H2] | discriminate]. }
-  assert (Hserve : forall knd : skind, exists s' ok,
-     match match progress s with 0 => None | S p0 => Some (S p0) end with
-     | None => Ok ({| progress := progress s; bdy := {| rest := data srv; dead := false |};
-                      reads := reads s; conns := conns';
-                      reqs := reqs s ++ [match progress s with 0 => None | S p0 => Some (S p0) end] |}, true)
-     | Some p =>
-       match knd with
-       | RejectsRange => Ok ({| progress := progress s; bdy := closed; reads := reads s; conns := conns';
-                                reqs := reqs s ++ [match progress s with 0 => None | S p0 => Some (S p0) end] |}, false)
-       | HonoursRange =>
-           if Nat.ltb p (List.length (data srv))
-           then Ok ({| progress := p; bdy := {| rest := skipn p (data srv); dead := false |};
-                       reads := reads s; conns := conns';
-                       reqs := reqs s ++ [match progress s with 0 => None | S p0 => Some (S p0) end] |}, true)
-           else Ok ({| progress := progress s; bdy := closed; reads := reads s; conns := conns';
-                       reqs := reqs s ++ [match progress s with 0 => None | S p0 => Some (S p0) end] |}, false)
-       | IgnoresRange =>
-           do r <- discard p p {| rest := data srv; dead := false |} (reads s);
-           match r with
-           | (Some b, evs') => Ok ({| progress := p; bdy := b; reads := evs'; conns := conns';
-                                      reqs := reqs s ++ [match progress s with 0 => None | S p0 => Some (S p0) end] |}, true)
-           | (None, evs') => Ok ({| progress := p; bdy := closed; reads := evs'; conns := conns';
-                                    reqs := reqs s ++ [match progress s with 0 => None | S p0 => Some (S p0) end] |}, false)
-           end
-       end
-     end = Ok (s', ok) /\ progress s' = progress s /\ Inv s' /\ (ok = false -> dead (bdy s') = true)).
-  { intros knd. destruct (progress s) as [|p'] eqn:Hpr.
-    - apply Hgood; [simpl; auto | simpl; intros _; reflexivity].
-    - destruct knd.
-      + destruct (Nat.ltb (S p') (List.length (data srv))) eqn:Hlt.
-        * apply Hgood; [simpl; auto | simpl; intros _; reflexivity].
-        * apply Hfail; simpl; auto.
-      + destruct (discard_spec (S p') (S p') {| rest := data srv; dead := false |} (reads s) 0)
-          as (r & evs' & Hd & Hr); try lia.
-        { intros _; reflexivity. }
-        unfold rbind. rewrite Hd. destruct r as [b|].
-        * apply Hgood; [simpl; auto | simpl; apply (Hr b eq_refl)].
-        * apply Hfail; simpl; auto.
-      + apply Hfail; simpl; auto. }
-  destruct c as [| | |k0].
-  - exact (Hserve (kind srv)).
-  - apply Hfail; reflexivity.
-  - apply Hfail; reflexivity.
-  - exact (Hserve k0).
+  { intros s1 H1 H2 H3. exists s1, true. split; [reflexivity|]. split; [exact H1|].
+    split; [split; [rewrite H1; exact Hp | split; [rewrite H1; exact H2 | rewrite H3; exact Hfr']] | discriminate]. }
+  assert (Hex : forall q, positioned {| rest := skipn q (data srv); dead := false |} q).
+  { intros q _. exists []. rewrite app_nil_r. split; reflexivity. }
+  assert (Htr : forall n q, framed_ev c = false ->
+            positioned {| rest := firstn n (skipn q (data srv)); dead := false |} q).
+  { intros n q Hc _. exists (skipn n (skipn q (data srv))). cbn [rest]. rewrite firstn_skipn.
+    split; [reflexivity|]. intros Hx. rewrite (Hcf Hx) in Hc. discriminate. }
+  assert (Hdis : forall R p, positioned {| rest := R; dead := false |} 0 -> p = progress s ->
+            exists s' ok,
+              (do r <- discard p p {| rest := R; dead := false |} (reads s);
+               match r with
+               | (Some b, evs') => Ok ({| progress := p; bdy := b; reads := evs'; conns := conns';
+                                          reqs := reqs s ++ [Some p] |}, true)
+               | (None, evs') => Ok ({| progress := p; bdy := closed; reads := evs'; conns := conns';
+                                        reqs := reqs s ++ [Some p] |}, false)
+               end) = Ok (s', ok) /\ progress s' = progress s /\ Inv s' /\ (ok = false -> dead (bdy s') = true)).
+  { intros R p HR Hpp.
+    destruct (discard_spec p p {| rest := R; dead := false |} (reads s) 0)
+      as (r & evs' & Hd & Hr); try lia; [exact HR|].
+    unfold rbind. rewrite Hd. destruct r as [b|].
+    - apply Hgood; [simpl; auto | cbn [bdy]; rewrite <- Hpp; apply (Hr b eq_refl) | reflexivity].
+    - apply Hfail; simpl; auto. }
+  destruct c as [| | |k0|k0 n0]; cbv beta iota zeta.
+  2: apply Hfail; reflexivity.
+  2: apply Hfail; reflexivity.
+  all: destruct (progress s) as [|p'] eqn:Hpr;
+    [apply Hgood; [reflexivity | cbn [bdy]; first [apply (Hex 0) | apply (Htr _ 0); reflexivity] | reflexivity]|].
+  all: match goal with |- context [match ?K with HonoursRange => _ | IgnoresRange => _ | RejectsRange => _ end] =>
+         destruct K end.
+  all: try (apply Hfail; reflexivity).
+  all: try (destruct (Nat.ltb (S p') (List.length (data srv)));
+            [apply Hgood; [reflexivity | cbn [bdy]; first [apply Hex | apply Htr; reflexivity] | reflexivity]
+            | apply Hfail; reflexivity]).
+  all: apply (Hdis _ (S p')); [first [apply (Hex 0) | apply (Htr _ 0); reflexivity] | reflexivity].
 Qed.
 
 (* ---------- the retry loop ------------------------------------------------- *)
@@ -230,13 +243,14 @@ Definition post (s s' : st) (out : list N) (e : err) : Prop :=
   out = firstn (List.length out) (skipn (progress s) dat) /\
   progress s + List.length out <= List.length dat /\
   positioned (bdy s') (progress s + List.length out) /\
-  (e = EEOF -> progress s + List.length out = List.length dat).
+  (x = true -> framed (conns s')) /\
+  (e = EEOF -> x = true -> progress s + List.length out = List.length dat).
 
 Lemma attempts_spec sched : forall lenp s last,
   sched_ok sched = true -> Inv s ->
   exists s' out e, attempts srv sched lenp s last = Ok (s', (out, e)) /\ post s s' out e.
 Proof.
-  induction sched as [|retry more IH]; intros lenp s last Hok [Hp Hpos]; [discriminate|].
+  induction sched as [|retry more IH]; intros lenp s last Hok (Hp & Hpos & Hfr); [discriminate|].
   cbn [attempts].
   destruct (body_read (bdy s) lenp (reads s)) as [[[out e] b'] evs'] eqn:Hbr.
   pose proof (body_read_spec _ _ _ _ _ _ _ _ Hpos Hp Hbr) as (Hout & Hle & Hpos1 & Heof & _).
@@ -245,17 +259,17 @@ Proof.
   - eexists _, _, _; split; [reflexivity|]. unfold post; simpl. repeat split; auto; discriminate.
   - eexists _, _, _; split; [reflexivity|]. unfold post; simpl. repeat split; auto; discriminate.
   - destruct retry.
-    + destruct (reset_spec s1 Hp) as (s2 & ok & Hr & Hpr2 & Hinv2 & Hdead).
+    + destruct (reset_spec s1 Hp Hfr) as (s2 & ok & Hr & Hpr2 & Hinv2 & Hdead).
       unfold rbind. rewrite Hr. destruct ok.
       * assert (Hmore : sched_ok more = true).
         { destruct more as [|b m]; [simpl in Hok; discriminate | exact Hok]. }
         destruct (IH lenp s2 (out, EFail) Hmore Hinv2) as (s3 & out3 & e3 & Ha & Hpost).
         exists s3, out3, e3. split; [exact Ha|].
-        destruct Hpost as (A & B & C & D & E). simpl in Hpr2.
-        unfold post. rewrite <- Hpr2. auto.
+        destruct Hpost as (A & B & C & D & E & F). simpl in Hpr2.
+        unfold post. rewrite <- Hpr2. auto 10.
       * eexists _, _, _; split; [reflexivity|]. simpl in Hpr2. unfold post.
         split; [exact Hpr2|]. split; [exact Hout|]. split; [exact Hle|].
-        split; [|discriminate].
+        split; [|split; [apply Hinv2 | discriminate]].
         intros Hx. rewrite (Hdead eq_refl) in Hx. discriminate.
     + eexists _, _, _; split; [reflexivity|]. unfold post; simpl. repeat split; auto; discriminate.
 Qed.
@@ -264,10 +278,10 @@ Lemma read_call_spec sched s lenp : sched_ok sched = true -> Inv s ->
   exists s' out e, read_call srv sched s lenp = Ok (s', (out, e)) /\
     Inv s' /\ progress s' = progress s + List.length out /\
     out = firstn (List.length out) (skipn (progress s) dat) /\
-    (e = EEOF -> progress s' = List.length dat).
+    (e = EEOF -> x = true -> progress s' = List.length dat).
 Proof.
   intros Hok Hinv. unfold read_call.
-  destruct (attempts_spec sched lenp s ([], ENone) Hok Hinv) as (s1 & out & e & Ha & A & B & C & D & E).
+  destruct (attempts_spec sched lenp s ([], ENone) Hok Hinv) as (s1 & out & e & Ha & A & B & C & D & E & F).
   unfold rbind. rewrite Ha. eexists _, _, _; split; [reflexivity|]. simpl.
   rewrite A. repeat split; auto.
 Qed.
@@ -276,47 +290,53 @@ Qed.
 Lemma read_calls_spec sched (Hok : sched_ok sched = true) bufs : forall s, Inv s ->
   exists s' outs, read_calls srv sched s bufs = Ok (s', outs) /\ Inv s' /\
     progress s' = progress s + List.length (delivered outs) /\
-    valid_outs dat (firstn (progress s) dat) outs = [].
+    delivered outs = firstn (List.length (delivered outs)) (skipn (progress s) dat) /\
+    (x = true -> valid_outs dat (firstn (progress s) dat) outs = []).
 Proof.
   induction bufs as [|n more IH]; intros s Hinv.
-  - eexists _, _; split; [reflexivity|]. simpl. split; [exact Hinv|]. split; [lia | reflexivity].
+  - eexists _, _; split; [reflexivity|]. simpl. split; [exact Hinv|]. split; [lia | split; reflexivity].
   - cbn [read_calls].
     destruct (read_call_spec sched s n Hok Hinv) as (s1 & out & e & Hr & Hinv1 & Hp1 & Hout & Heof).
     unfold rbind at 1. rewrite Hr.
-    destruct (IH s1 Hinv1) as (s2 & outs & Hrs & Hinv2 & Hp2 & Hval).
+    destruct (IH s1 Hinv1) as (s2 & outs & Hrs & Hinv2 & Hp2 & Hdel & Hval).
     unfold rbind. rewrite Hrs. eexists _, _; split; [reflexivity|].
-    split; [exact Hinv2|]. split.
-    + unfold delivered in *. simpl. rewrite app_length. lia.
-    + cbn [valid_outs].
+    assert (Hd : delivered ((out, e) :: outs) = out ++ delivered outs) by reflexivity.
+    split; [exact Hinv2|]. split; [|split].
+    + rewrite Hd, app_length. lia.
+    + rewrite Hd, app_length. rewrite Hout at 1. rewrite Hdel at 1. rewrite Hp1.
+      rewrite <- skipn_skipn'. apply firstn_add_skipn.
+    + intros Hx. cbn [valid_outs].
       assert (Hacc : firstn (progress s) dat ++ out = firstn (progress s1) dat).
       { rewrite Hout at 1. rewrite firstn_add_skipn. rewrite Hp1. reflexivity. }
       rewrite Hacc. rewrite is_prefix_firstn. simpl.
       assert (He : (match e with EEOF => negb (list_eqb N.eqb (firstn (progress s1) dat) dat) | _ => false end) = false).
-      { destruct e; try reflexivity. rewrite (Heof eq_refl). rewrite firstn_all.
+      { destruct e; try reflexivity. rewrite (Heof eq_refl Hx). rewrite firstn_all.
         apply negb_false_iff. apply list_eqb_spec; [apply N.eqb_eq | reflexivity]. }
-      rewrite He. simpl. exact Hval.
+      rewrite He. simpl. exact (Hval Hx).
 Qed.
 
-Lemma open_spec rds cns :
+Lemma open_spec rds cns : (x = true -> framed cns) ->
   exists s ok, open srv rds cns = Ok (s, ok) /\ progress s = 0 /\ Inv s.
 Proof.
-  unfold open.
+  intros Hfr. unfold open.
   destruct (reset_spec {| progress := 0; bdy := {| rest := []; dead := true |}; reads := rds; conns := cns; reqs := [] |})
-    as (s & ok & Hr & Hp & Hinv & _); [simpl; lia|].
-  exists s, ok. auto.
+    as (s & ok & Hr & Hp & Hinv & _); [simpl; lia | exact Hfr |].
+  unfold rbind. rewrite Hr. eexists _, _. split; [reflexivity|]. auto.
 Qed.
 
-Theorem session_valid sched rds cns bufs : sched_ok sched = true ->
+Theorem session_gen sched rds cns bufs : sched_ok sched = true -> (x = true -> framed cns) ->
   exists r, session srv sched rds cns bufs = Ok r /\
     forall s outs, r = Some (s, outs) ->
-      valid_outs dat [] outs = [] /\ progress s = List.length (delivered outs).
+      is_prefix (delivered outs) dat = true /\ progress s = List.length (delivered outs) /\
+      (x = true -> valid_outs dat [] outs = []).
 Proof.
-  intros Hok. unfold session.
-  destruct (open_spec rds cns) as (s0 & ok & Ho & Hp0 & Hinv0).
+  intros Hok Hfr. unfold session.
+  destruct (open_spec rds cns Hfr) as (s0 & ok & Ho & Hp0 & Hinv0).
   unfold rbind at 1. rewrite Ho. destruct ok.
-  - destruct (read_calls_spec sched Hok bufs s0 Hinv0) as (s1 & outs & Hr & _ & Hp1 & Hval).
+  - destruct (read_calls_spec sched Hok bufs s0 Hinv0) as (s1 & outs & Hr & _ & Hp1 & Hdel & Hval).
     unfold rbind. rewrite Hr. eexists; split; [reflexivity|].
-    intros s outs' H; inversion H; subst. rewrite Hp0 in *. simpl in *. split; [exact Hval | exact Hp1].
+    intros s outs' H; inversion H; subst. rewrite Hp0 in *. simpl in *.
+    split; [rewrite Hdel; apply is_prefix_firstn | split; [exact Hp1 | exact Hval]].
   - eexists; split; [reflexivity|]. intros s outs H; discriminate.
 Qed.
 
@@ -430,7 +450,7 @@ Lemma reset_all_fail srv s :
 Proof.
   intros Hall Hlen. unfold reset.
   destruct (next_conn (conns s)) as [c conns'].
-  destruct c as [| | |k0]; cbv zeta;
+  destruct c as [| | |k0|k0 n0]; cbv zeta;
     try (eexists _, _; split; [reflexivity|]; simpl; repeat split; auto; fail).
   all: destruct (progress s) as [|p'] eqn:Hp;
     [eexists _, _; split; [reflexivity|]; simpl; repeat split; auto|].
@@ -438,7 +458,8 @@ Proof.
          destruct K end.
   all: try (destruct (Nat.ltb _ _); eexists _, _; (split; [reflexivity|]); simpl; repeat split; auto; fail).
   all: try (eexists _, _; split; [reflexivity|]; simpl; repeat split; auto; fail).
-  all: destruct (discard_all_fail (S p') (S p') (reads s) (data srv)) as (r & evs' & Hd & Hr & Hall' & Hlen'); auto;
+  all: match goal with |- context [discard _ _ {| rest := ?R; dead := false |} _] =>
+         destruct (discard_all_fail (S p') (S p') (reads s) R) as (r & evs' & Hd & Hr & Hall' & Hlen'); auto end;
     unfold rbind; rewrite Hd; destruct r as [b|];
     eexists _, _; (split; [reflexivity|]); simpl; repeat split; auto.
 Qed.
@@ -475,23 +496,51 @@ Proof.
 Qed.
 
 (* ---------- statements in the shape Properties/C20.v exposes --------------- *)
-Lemma session_faithful srv sched rds cns bufs : sched_ok sched = true ->
+Lemma session_faithful srv sched rds cns bufs : sched_ok sched = true -> framed cns ->
   exists r, session srv sched rds cns bufs = Ok r /\
     forall s outs, r = Some (s, outs) ->
       Faithful (data srv) outs /\ progress s = List.length (delivered outs).
 Proof.
-  intros Hok. destruct (session_valid srv sched rds cns bufs Hok) as (r & Hr & H).
-  exists r. split; [exact Hr|]. intros s outs E. destruct (H s outs E) as [A B].
-  split; [apply valid_outs_iff; exact A | exact B].
+  intros Hok Hfr. destruct (session_gen srv true sched rds cns bufs Hok (fun _ => Hfr)) as (r & Hr & H).
+  exists r. split; [exact Hr|]. intros s outs E. destruct (H s outs E) as (_ & B & C).
+  split; [apply valid_outs_iff; exact (C eq_refl) | exact B].
+Qed.
+
+(* whatever the framing: never duplicated, skipped or altered *)
+Lemma session_prefix srv sched rds cns bufs : sched_ok sched = true ->
+  exists r, session srv sched rds cns bufs = Ok r /\
+    forall s outs, r = Some (s, outs) ->
+      (exists suf, data srv = delivered outs ++ suf) /\ progress s = List.length (delivered outs).
+Proof.
+  intros Hok.
+  destruct (session_gen srv false sched rds cns bufs Hok) as (r & Hr & H); [discriminate|].
+  exists r. split; [exact Hr|]. intros s outs E. destruct (H s outs E) as (A & B & _).
+  split; [apply is_prefix_spec; exact A | exact B].
 Qed.
 
 Lemma reset_resumes_exactly srv s : progress s <= List.length (data srv) ->
-  exists s' ok, reset srv s = Ok (s', ok) /\ progress s' = progress s /\
-    (dead (bdy s') = false -> rest (bdy s') = skipn (progress s) (data srv)) /\
+  exists s' ok suf, reset srv s = Ok (s', ok) /\ progress s' = progress s /\
+    (dead (bdy s') = false -> skipn (progress s) (data srv) = rest (bdy s') ++ suf) /\
+    (framed (conns s) -> suf = []) /\
     (ok = false -> dead (bdy s') = true).
 Proof.
-  intros Hp. destruct (reset_spec srv s Hp) as (s' & ok & Hr & Hpr & [_ Hpos] & Hd).
-  exists s', ok. repeat split; auto. intros Ha. rewrite <- Hpr. apply Hpos; exact Ha.
+  intros Hp.
+  destruct (reset_spec srv false s Hp) as (s' & ok & Hr & Hpr & (_ & Hpos & _) & Hd); [discriminate|].
+  destruct (dead (bdy s')) eqn:Hdead.
+  - exists s', ok, []. split; [exact Hr|]. split; [exact Hpr|].
+    split; [intros Hx; rewrite Hdead in Hx; discriminate|].
+    split; [intros _; reflexivity | intros _; exact Hdead].
+  - destruct (Hpos Hdead) as (suf & Hsk & _).
+    (* the framed case: the same reset, read with the exact invariant *)
+    exists s', ok, suf. split; [exact Hr|]. split; [exact Hpr|]. split; [intros _; rewrite <- Hpr; exact Hsk|].
+    split; [|intros Hx; specialize (Hd Hx); discriminate].
+    intros Hfr.
+    destruct (reset_spec srv true s Hp (fun _ => Hfr)) as (s2 & ok2 & Hr2 & _ & (_ & Hpos2 & _) & _).
+    rewrite Hr in Hr2. inversion Hr2; subst s2 ok2.
+    destruct (Hpos2 Hdead) as (suf2 & Hsk2 & Hnil). specialize (Hnil eq_refl). subst suf2.
+    rewrite app_nil_r in Hsk2. rewrite Hsk2 in Hsk.
+    apply (f_equal (@List.length N)) in Hsk. rewrite app_length in Hsk.
+    destruct suf; [reflexivity | simpl in Hsk; lia].
 Qed.
 
 (* the hypothesis on the schedule is not decoration: with a schedule that ends
@@ -501,9 +550,343 @@ Lemma bad_schedule_duplicates :
     session srv [true; true; true] rds cns bufs = Ok (Some (s, outs)) /\
     valid_outs (data srv) [] outs <> [].
 Proof.
-  exists {| data := [1; 2; 3]%N; kind := HonoursRange |}.
+  exists {| data := [1; 2; 3]%N; kind := HonoursRange; bare := false |}.
   exists [ {| rk := 1; rfail := true; reager := false |};
            {| rk := 1; rfail := true; reager := false |};
            {| rk := 1; rfail := true; reager := false |} ].
   exists [], [2; 2]. eexists _, _. split; [vm_compute; reflexivity|]. vm_compute. discriminate.
+Qed.
+
+(* ---------- completion ------------------------------------------------------ *)
+Lemma skip_ok_nil left : skip_ok left [] = Some [].
+Proof. destruct left; reflexivity. Qed.
+
+Lemma skip_ok_0 evs : skip_ok 0 evs = Some evs.
+Proof. destruct evs; reflexivity. Qed.
+
+Lemma discard_buf_pos : discard_buf <> 0.
+Proof. unfold discard_buf. vm_compute. discriminate. Qed.
+
+(* [skip_ok] and [call_ok] read the script the way the model does *)
+Lemma skip_ok_unfold l evs :
+  skip_ok (S l) evs =
+  let (ev, evs') := next_rd (Nat.min discard_buf (S l)) evs in
+  if rfail ev then None
+  else skip_ok (S l - Nat.min (Nat.max 1 (rk ev)) (Nat.min discard_buf (S l))) evs'.
+Proof.
+  destruct evs as [|ev evs']; [|reflexivity].
+  unfold next_rd. cbn [rfail rk]. rewrite !skip_ok_nil. reflexivity.
+Qed.
+
+Lemma call_ok_unfold len k retry more lenp p evs : lenp <> 0 ->
+  call_ok len k (retry :: more) lenp p evs =
+  let (ev, evs') := next_rd lenp evs in
+  if rfail ev then
+    if retry then
+      match reconnect_ok len k p evs' with
+      | Some evs'' => call_ok len k more lenp p evs''
+      | None => None
+      end
+    else None
+  else Some (Nat.min (Nat.max 1 (rk ev)) (Nat.min lenp (len - p)), evs').
+Proof.
+  intros Hl. destruct evs as [|ev evs']; [|reflexivity].
+  unfold next_rd. cbn [call_ok rfail rk]. f_equal. f_equal. lia.
+Qed.
+
+Section Live.
+Variable srv : server.
+Let dat := data srv.
+Let len := List.length dat.
+
+(* between two Read calls of a surviving session: a live, framed connection at [progress] *)
+Definition Good (s : st) : Prop :=
+  progress s <= len /\ dead (bdy s) = false /\ rest (bdy s) = skipn (progress s) dat /\ all_serve (conns s).
+
+Lemma body_read_live b p lenp evs ev evs' :
+  dead b = false -> rest b = skipn p dat -> p <= len -> lenp <> 0 ->
+  next_rd lenp evs = (ev, evs') -> rfail ev = false ->
+  exists out e b', body_read b lenp evs = (out, e, b', evs') /\
+    List.length out = Nat.min (Nat.max 1 (rk ev)) (Nat.min lenp (len - p)) /\
+    out = firstn (List.length out) (skipn p dat) /\
+    dead b' = false /\ rest b' = skipn (p + List.length out) dat /\
+    e <> EFail /\ (p = len -> e = EEOF) /\ (e = EEOF -> p + List.length out = len) /\
+    (p < len -> 1 <= List.length out).
+Proof.
+  intros Hd Hr Hp Hl Hn Hf. unfold body_read. rewrite Hd.
+  destruct lenp as [|lp]; [congruence|]. rewrite Hn, Hf.
+  assert (Hsl : List.length (skipn p dat) = len - p) by apply skipn_length.
+  rewrite Hr. destruct (skipn p dat) as [|r0 rs] eqn:Hsk.
+  - simpl in Hsl. eexists _, _, _; split; [reflexivity|]. cbn [List.length].
+    rewrite Nat.add_0_r. repeat split; auto; try discriminate; try lia; try congruence.
+  - set (n := Nat.min (Nat.max 1 (rk ev)) (Nat.min (S lp) (List.length (r0 :: rs)))).
+    assert (Hn1 : 1 <= n) by (unfold n; cbn [List.length]; lia).
+    assert (Hnl : n <= List.length (r0 :: rs)) by (unfold n; lia).
+    assert (Hfl : List.length (firstn n (r0 :: rs)) = n) by (apply firstn_length_le; exact Hnl).
+    assert (Hsk' : skipn n (r0 :: rs) = skipn (p + n) dat) by (rewrite <- Hsk; apply skipn_skipn').
+    assert (Hplt : p < len) by (cbn [List.length] in Hsl; lia).
+    assert (Hnil : skipn n (r0 :: rs) = [] -> p + n = len).
+    { intros Hx. apply skipn_nil_length in Hx. lia. }
+    destruct (skipn n (r0 :: rs)) as [|q0 qs] eqn:Hq.
+    + eexists _, _, _; split; [reflexivity|]. rewrite Hfl. cbn [dead rest].
+      split; [unfold n; rewrite Hsl; reflexivity|]. split; [reflexivity|]. split; [reflexivity|].
+      split; [exact Hsk'|]. split; [destruct (reager ev); discriminate|].
+      split; [lia|]. split; [intros _; apply Hnil; reflexivity | intros _; exact Hn1].
+    + eexists _, _, _; split; [reflexivity|]. rewrite Hfl. cbn [dead rest].
+      split; [unfold n; rewrite Hsl; reflexivity|]. split; [reflexivity|]. split; [reflexivity|].
+      split; [exact Hsk'|]. split; [discriminate|].
+      split; [lia|]. split; [discriminate | intros _; exact Hn1].
+Qed.
+
+Lemma body_read_dies b lenp evs ev evs' :
+  dead b = false -> lenp <> 0 -> next_rd lenp evs = (ev, evs') -> rfail ev = true ->
+  exists out b', body_read b lenp evs = (out, EFail, b', evs').
+Proof.
+  intros Hd Hl Hn Hf. unfold body_read. rewrite Hd.
+  destruct lenp as [|lp]; [congruence|]. rewrite Hn, Hf. eexists _, _; reflexivity.
+Qed.
+
+Lemma discard_live fuel : forall left b evs q evs'',
+  left <= fuel -> dead b = false -> rest b = skipn q dat -> q + left <= len ->
+  skip_ok left evs = Some evs'' ->
+  exists b', discard fuel left b evs = Ok (Some b', evs'') /\
+    dead b' = false /\ rest b' = skipn (q + left) dat.
+Proof.
+  induction fuel as [|fuel IH]; intros left b evs q evs'' Hf Hd Hr Hq Hs.
+  - assert (left = 0) by lia; subst. rewrite skip_ok_0 in Hs. simpl. inversion Hs; subst.
+    exists b. rewrite Nat.add_0_r. auto.
+  - destruct left as [|l].
+    { rewrite skip_ok_0 in Hs. simpl. inversion Hs; subst. exists b. rewrite Nat.add_0_r. auto. }
+    rewrite skip_ok_unfold in Hs. cbn [discard].
+    set (lenp := Nat.min discard_buf (S l)) in *.
+    assert (Hlp : lenp <> 0) by (unfold lenp; pose proof discard_buf_pos; lia).
+    destruct (next_rd lenp evs) as [ev evs1] eqn:Hn.
+    destruct (rfail ev) eqn:Hfl; [discriminate|].
+    destruct (body_read_live b q lenp evs ev evs1 Hd Hr ltac:(lia) Hlp Hn Hfl)
+      as (out & e & b1 & Hbr & Hlen & _ & Hd1 & Hr1 & Hne & _ & Heof & _).
+    rewrite Hbr.
+    assert (Hlen' : List.length out = Nat.min (Nat.max 1 (rk ev)) lenp) by (rewrite Hlen; unfold lenp; lia).
+    rewrite <- Hlen' in Hs.
+    assert (Hol : List.length out <= S l) by (rewrite Hlen'; unfold lenp; lia).
+    destruct (S l - List.length out) as [|l'] eqn:Hl'.
+    + rewrite skip_ok_0 in Hs. inversion Hs; subst. exists b1. split; [reflexivity|]. split; [exact Hd1|].
+      rewrite Hr1. f_equal. lia.
+    + destruct e.
+      * destruct (IH (S l') b1 evs1 (q + List.length out) evs'') as (b2 & Hdis & Hd2 & Hr2); auto; try lia.
+        exists b2. split; [exact Hdis|]. split; [exact Hd2|]. rewrite Hr2. f_equal. lia.
+      * specialize (Heof eq_refl). lia.
+      * congruence.
+Qed.
+
+Lemma all_serve_next cns : all_serve cns ->
+  exists cns', next_conn cns = (CServe, cns') /\ all_serve cns'.
+Proof.
+  intros H. destruct cns as [|c t].
+  - exists []. split; [reflexivity | constructor].
+  - inversion H; subst. exists t. split; [reflexivity | assumption].
+Qed.
+
+Lemma reset_live s evs'' :
+  progress s <= len -> all_serve (conns s) ->
+  reconnect_ok len (kind srv) (progress s) (reads s) = Some evs'' ->
+  exists s', reset srv s = Ok (s', true) /\ Good s' /\ progress s' = progress s /\ reads s' = evs''.
+Proof.
+  intros Hp Hc Hrc. unfold reset.
+  destruct (all_serve_next _ Hc) as (cns' & Hn & Hc'). rewrite Hn.
+  unfold reconnect_ok in Hrc.
+  destruct (progress s) as [|p'] eqn:Hpr.
+  - inversion Hrc; subst. eexists; split; [reflexivity|]. unfold Good; simpl. repeat split; auto; lia.
+  - destruct (kind srv).
+    + change (List.length (data srv)) with len.
+      destruct (Nat.ltb (S p') len) eqn:Hlt; [|discriminate]. inversion Hrc; subst.
+      eexists; split; [reflexivity|]. unfold Good; simpl. repeat split; auto.
+    + destruct (discard_live (S p') (S p') {| rest := data srv; dead := false |} (reads s) 0 evs'')
+        as (b' & Hdis & Hd & Hr); auto.
+      unfold rbind. rewrite Hdis. eexists; split; [reflexivity|]. unfold Good; simpl. repeat split; auto.
+    + discriminate.
+Qed.
+
+Lemma attempts_live sched : forall s last lenp n evs',
+  Good s -> lenp <> 0 ->
+  call_ok len (kind srv) sched lenp (progress s) (reads s) = Some (n, evs') ->
+  exists s' out e, attempts srv sched lenp s last = Ok (s', (out, e)) /\
+    progress s' = progress s /\ List.length out = n /\ reads s' = evs' /\
+    out = firstn n (skipn (progress s) dat) /\
+    dead (bdy s') = false /\ rest (bdy s') = skipn (progress s + n) dat /\ all_serve (conns s') /\
+    e <> EFail /\ (progress s = len -> e = EEOF) /\ (e = EEOF -> progress s + n = len) /\
+    (progress s < len -> 1 <= n).
+Proof.
+  induction sched as [|retry more IH]; intros s last lenp n evs' (Hp & Hd & Hr & Hc) Hl Hco; [discriminate|].
+  rewrite call_ok_unfold in Hco by exact Hl. cbn [attempts].
+  destruct (next_rd lenp (reads s)) as [ev evs1] eqn:Hn.
+  destruct (rfail ev) eqn:Hf.
+  - destruct retry; [|discriminate].
+    destruct (reconnect_ok len (kind srv) (progress s) evs1) as [evs2|] eqn:Hrc; [|discriminate].
+    destruct (body_read_dies (bdy s) lenp (reads s) ev evs1 Hd Hl Hn Hf) as (out & b' & Hbr).
+    rewrite Hbr.
+    set (s1 := {| progress := progress s; bdy := b'; reads := evs1; conns := conns s; reqs := reqs s |}).
+    destruct (reset_live s1 evs2 Hp Hc Hrc) as (s2 & Hrs & Hg2 & Hp2 & Hr2).
+    unfold rbind. rewrite Hrs. simpl in Hp2.
+    rewrite <- Hp2, <- Hr2 in Hco.
+    destruct (IH s2 (out, EFail) lenp n evs' Hg2 Hl Hco) as (s3 & out3 & e3 & Ha & A).
+    exists s3, out3, e3. split; [exact Ha|]. rewrite <- Hp2. exact A.
+  - destruct (body_read_live (bdy s) (progress s) lenp (reads s) ev evs1 Hd Hr Hp Hl Hn Hf)
+      as (out & e & b1 & Hbr & Hlen & Hout & Hd1 & Hr1 & Hne & Hend & Heof & Hpos).
+    rewrite <- Hlen in Hco. injection Hco as <- <-.
+    rewrite Hbr.
+    destruct e; [| |congruence];
+      (eexists _, _, _; split; [reflexivity|]; cbn [progress bdy reads conns]; repeat split; auto; discriminate).
+Qed.
+
+Lemma read_call_live sched s lenp n evs' :
+  Good s -> lenp <> 0 ->
+  call_ok len (kind srv) sched lenp (progress s) (reads s) = Some (n, evs') ->
+  exists s' out e, read_call srv sched s lenp = Ok (s', (out, e)) /\ Good s' /\
+    progress s' = progress s + n /\ List.length out = n /\ reads s' = evs' /\
+    out = firstn n (skipn (progress s) dat) /\
+    e <> EFail /\ (progress s = len -> e = EEOF) /\ (progress s < len -> 1 <= n).
+Proof.
+  intros Hg Hl Hco. unfold read_call.
+  destruct (attempts_live sched s ([], ENone) lenp n evs' Hg Hl Hco)
+    as (s1 & out & e & Ha & Hp1 & Hlen & Hr1 & Hout & Hd1 & Hrest & Hc1 & Hne & Hend & Heof & Hpos).
+  unfold rbind. rewrite Ha. eexists _, _, _; split; [reflexivity|].
+  destruct Hg as (Hp & _).
+  assert (Hle : progress s + n <= len).
+  { subst n. rewrite Hout, firstn_length, skipn_length. fold len. lia. }
+  unfold Good; cbn [progress bdy reads conns]. rewrite Hp1, Hlen. repeat split; auto.
+Qed.
+
+Lemma read_calls_live sched bufs : forall s,
+  Good s -> tolerated len (kind srv) sched bufs (progress s) (reads s) = true ->
+  exists s' outs, read_calls srv sched s bufs = Ok (s', outs) /\ Good s' /\
+    progress s' = progress s + List.length (delivered outs) /\
+    delivered outs = firstn (List.length (delivered outs)) (skipn (progress s) dat) /\
+    Forall (fun o => snd o <> EFail) outs /\
+    (len - progress s < List.length bufs -> Exists (fun o => snd o = EEOF) outs /\ progress s' = len).
+Proof.
+  induction bufs as [|lenp more IH]; intros s Hg Ht.
+  - eexists _, _; split; [reflexivity|]. simpl. split; [exact Hg|]. split; [lia|].
+    split; [reflexivity|]. split; [constructor | intros H; lia].
+  - cbn [tolerated] in Ht. destruct lenp as [|lp]; [discriminate|].
+    destruct (call_ok len (kind srv) sched (S lp) (progress s) (reads s)) as [[n evs']|] eqn:Hco; [|discriminate].
+    destruct (read_call_live sched s (S lp) n evs' Hg ltac:(discriminate) Hco)
+      as (s1 & out & e & Hrc & Hg1 & Hp1 & Hlen & Hr1 & Hout & Hne & Hend & Hpos).
+    rewrite <- Hp1, <- Hr1 in Ht.
+    destruct (IH s1 Hg1 Ht) as (s2 & outs & Hrs & Hg2 & Hp2 & Hdel & Hall & Hex).
+    cbn [read_calls]. unfold rbind at 1. rewrite Hrc. unfold rbind. rewrite Hrs.
+    eexists _, _; split; [reflexivity|].
+    assert (Hd : delivered ((out, e) :: outs) = out ++ delivered outs) by reflexivity.
+    split; [exact Hg2|]. split; [rewrite Hd, app_length; lia|]. split; [|split].
+    + rewrite Hd, app_length, Hlen. rewrite Hout at 1. rewrite Hdel at 1. rewrite Hp1.
+      rewrite <- skipn_skipn'. apply firstn_add_skipn.
+    + constructor; [exact Hne | exact Hall].
+    + cbn [List.length]. intros Hlt.
+      destruct Hg as (Hp & _). destruct Hg2 as (Hp2' & _).
+      destruct (Nat.eq_dec (progress s) len) as [Heq|Hneq].
+      * split; [apply Exists_cons_hd; exact (Hend Heq) | lia].
+      * assert (1 <= n) by (apply Hpos; lia).
+        destruct Hex as [He Hpe]; [lia|]. split; [apply Exists_cons_tl; exact He | exact Hpe].
+Qed.
+
+Theorem session_live sched rds cns bufs :
+  all_serve cns ->
+  tolerated len (kind srv) sched bufs 0 rds = true ->
+  len < List.length bufs ->
+  exists s outs, session srv sched rds cns bufs = Ok (Some (s, outs)) /\ Complete dat outs.
+Proof.
+  intros Hc Ht Hlen. unfold session, open.
+  set (s0 := {| progress := 0; bdy := {| rest := []; dead := true |}; reads := rds; conns := cns; reqs := [] |}).
+  destruct (reset_live s0 rds) as (s1 & Hrs & Hg1 & Hp1 & Hr1); [simpl; lia | exact Hc | reflexivity |].
+  unfold rbind at 1 2. rewrite Hrs. simpl in Hp1, Hr1.
+  rewrite <- Hp1, <- Hr1 in Ht.
+  destruct (read_calls_live sched bufs s1 Hg1 Ht) as (s2 & outs & Hrc & _ & Hp2 & Hdel & Hall & Hex).
+  assert (Hlive : dead (bdy s1) = false) by apply Hg1.
+  rewrite Hlive. cbn [andb negb].
+  unfold rbind. rewrite Hrc. exists s2, outs. split; [reflexivity|].
+  destruct Hex as [He Hpe]; [lia|]. rewrite Hp1 in *. simpl in Hp2, Hdel.
+  split; [|split; [exact Hall | exact He]].
+  rewrite Hdel. rewrite <- Hp2, Hpe. apply firstn_all.
+Qed.
+
+End Live.
+
+(* ---------- the boolean form of [Complete] ---------------------------------- *)
+Lemma complete_b_iff dat outs : complete_b dat outs = true <-> Complete dat outs.
+Proof.
+  unfold complete_b, Complete. rewrite !andb_true_iff.
+  rewrite list_eqb_spec by apply N.eqb_eq.
+  rewrite forallb_forall, Forall_forall, existsb_exists, Exists_exists.
+  split.
+  - intros [[A B] (o & Ho & C)]. split; [exact A|]. split.
+    + intros o' Hin He. specialize (B o' Hin). rewrite He in B. discriminate.
+    + exists o. split; [exact Ho|]. destruct (snd o); try discriminate. reflexivity.
+  - intros (A & B & (o & Ho & C)). split; [split; [exact A|]|].
+    + intros o' Hin. specialize (B o' Hin). destruct (snd o'); try reflexivity. congruence.
+    + exists o. split; [exact Ho|]. rewrite C. reflexivity.
+Qed.
+
+(* ---------- the corners the completion theorem excludes are real ------------ *)
+Definition count_failing (rds : list rd_ev) : nat := List.length (filter rfail rds).
+
+(* a Range-honouring server, ONE fault in the whole download, arriving after
+   the last byte was handed over but before end-of-file was seen: the resume
+   asks for bytes=len-, is answered 416, and the Read reports an error *)
+Lemma live_416_corner :
+  exists srv rds bufs s outs,
+    kind srv = HonoursRange /\ count_failing rds = 1 /\
+    List.length (data srv) < List.length bufs /\ Forall (fun n => n <> 0) bufs /\
+    session srv [true; true; false] rds [] bufs = Ok (Some (s, outs)) /\
+    delivered outs = data srv /\
+    Exists (fun o => snd o = EFail) outs /\ ~ Exists (fun o => snd o = EEOF) outs /\
+    reqs s = [None; Some 3; Some 3; Some 3] /\
+    tolerated (List.length (data srv)) (kind srv) [true; true; false] bufs 0 rds = false.
+Proof.
+  exists {| data := [1; 2; 3]%N; kind := HonoursRange; bare := false |}.
+  exists [ {| rk := 3; rfail := false; reager := false |}; {| rk := 0; rfail := true; reager := false |} ].
+  exists [3; 3; 3; 3]. eexists _, _.
+  split; [reflexivity|]. split; [reflexivity|]. split; [simpl; lia|].
+  split; [repeat constructor; discriminate|].
+  split; [vm_compute; reflexivity|]. split; [reflexivity|].
+  split; [apply Exists_cons_tl, Exists_cons_hd; reflexivity|].
+  split; [|split; reflexivity].
+  intros H. apply Exists_exists in H. destruct H as (o & Hin & He).
+  simpl in Hin. repeat (destruct Hin as [<-|Hin]; [discriminate|]). exact Hin.
+Qed.
+
+(* a server without Range support, two faults inside one Read (the schedule
+   has two [true] entries): the second one hits the restarted connection while
+   the already-delivered prefix is being discarded; the reset fails and the Read
+   reports an error although one retry is left *)
+Lemma live_restart_cut :
+  exists srv rds bufs s outs,
+    kind srv = IgnoresRange /\ count_failing rds = 2 /\
+    List.length (data srv) < List.length bufs /\ Forall (fun n => n <> 0) bufs /\
+    session srv [true; true; false] rds [] bufs = Ok (Some (s, outs)) /\
+    Exists (fun o => snd o = EFail) outs /\
+    reqs s = [None; Some 2; Some 3] /\
+    tolerated (List.length (data srv)) (kind srv) [true; true; false] bufs 0 rds = false.
+Proof.
+  exists {| data := [10; 20; 30; 40; 50]%N; kind := IgnoresRange; bare := false |}.
+  exists [ {| rk := 2; rfail := false; reager := false |}; {| rk := 1; rfail := true; reager := false |};
+           {| rk := 1; rfail := true; reager := false |} ].
+  exists [2; 2; 2; 2; 2; 2]. eexists _, _.
+  split; [reflexivity|]. split; [reflexivity|]. split; [simpl; lia|].
+  split; [repeat constructor; discriminate|].
+  split; [vm_compute; reflexivity|].
+  split; [apply Exists_cons_tl, Exists_cons_hd; reflexivity|].
+  split; reflexivity.
+Qed.
+
+(* a response that announces no length and is not chunked, closed cleanly after
+   two of five bytes, no fault reported anywhere: the reader reports EOF *)
+Lemma short_body_close_delimited :
+  exists srv cns bufs s outs,
+    session srv [true; true; false] [] cns bufs = Ok (Some (s, outs)) /\
+    outs = [([1; 2]%N, ENone); ([], EEOF)] /\
+    valid_outs (data srv) [] outs = ["viol:eof-before-complete"%string] /\
+    reqs s = [None].
+Proof.
+  exists {| data := [1; 2; 3; 4; 5]%N; kind := HonoursRange; bare := false |}.
+  exists [CCloseDelim HonoursRange 2], [4; 4]. eexists _, _.
+  split; [vm_compute; reflexivity|]. split; [reflexivity|]. split; reflexivity.
 Qed.
